@@ -223,5 +223,13 @@ func (g *Gen) PickBlockTxs(skipOdds int, shuffle bool) []*Tx {
 			order = append(order, t)
 		}
 	}
+	// the store is told about a block's transactions one by one, in whatever order
+	// they are delivered: with a shuffled delivery the coinbase is not the first
+	if shuffle && len(order) > 1 && order[0].Coinbase {
+		k := 1 + g.R.Intn(len(order)-1)
+		cb := order[0]
+		copy(order, order[1:k+1])
+		order[k] = cb
+	}
 	return order
 }
